@@ -20,6 +20,12 @@ def explore(ctx, for_c16=False):
     skipped = 0
     for v, out in outs.items():
         for o in out:
+            if o["idx"] == -1:
+                if for_c16:
+                    ctx.count("threads_greenlets_custom_items", o["other_items"])
+                    for b in o["c16"]:
+                        ctx.violation(f"[{v}] {b}", None)
+                continue
             case = cases[o["idx"]]
             if "skip" in o:
                 skipped += 1
